@@ -219,14 +219,14 @@ real part and different imaginary parts (1j / 2j, 1+2j / 1+3j, a value and its c
 imaginary part and different real parts, get different names (samples; the injectivity of the float part is
 decided by search, see notes) -/
 theorem const_name_complex_examples :
-    ident (.pycomplex 0 0x3ff0000000000000) = .ok "cf0f1" ∧
-    ident (.pycomplex 0 0x4000000000000000) = .ok "cf0f2" ∧
-    ident (.pycomplex 0x3ff0000000000000 0x4000000000000000) = .ok "cf1f2" ∧
-    ident (.pycomplex 0x3ff0000000000000 0x4008000000000000) = .ok "cf1f3" ∧
-    ident (.pycomplex 0x3ff0000000000000 0xc000000000000000) = .ok "cf1fneg2" ∧
-    ident (.pycomplex 0x4000000000000000 0x4000000000000000) = .ok "cf2f2" ∧
-    ident (.npcomplex 32 0x3f800000 0x40000000) = .ok "cf1f2" ∧
-    ident (.pycomplex 0x3fb999999999999a 0x3fc999999999999a) = .ok "cfx3fb999999999999afx3fc999999999999a" := by decide
+    (ident (.pycomplex 0 0x3ff0000000000000)).toOption = some "cf0f1" ∧
+    (ident (.pycomplex 0 0x4000000000000000)).toOption = some "cf0f2" ∧
+    (ident (.pycomplex 0x3ff0000000000000 0x4000000000000000)).toOption = some "cf1f2" ∧
+    (ident (.pycomplex 0x3ff0000000000000 0x4008000000000000)).toOption = some "cf1f3" ∧
+    (ident (.pycomplex 0x3ff0000000000000 0xc000000000000000)).toOption = some "cf1fneg2" ∧
+    (ident (.pycomplex 0x4000000000000000 0x4000000000000000)).toOption = some "cf2f2" ∧
+    (ident (.npcomplex 32 0x3f800000 0x40000000)).toOption = some "cf1f2" ∧
+    (ident (.pycomplex 0x3fb999999999999a 0x3fc999999999999a)).toOption = some "cfx3fb999999999999afx3fc999999999999a" := by decide +kernel
 
 open FAVerif.ConstName in
 /-- ints: the name is injective in the value (for every pair of ints) -/
@@ -240,10 +240,10 @@ open FAVerif.ConstName in
 (2) numpy scalars: the bytes of a non-integral value are printed in hex WITHOUT zero padding, so the
     float32 patterns 0x3f011000 and 0x3f110000 are both `f0x3f1100`. -/
 theorem const_name_witness :
-    ident (.pyfloat 0) = .ok "f0" ∧ ident (.pyfloat 0x8000000000000000) = .ok "f0" ∧
-    ident (.pycomplex 0x3ff0000000000000 0) = .ok "cf1f0" ∧
-    ident (.pycomplex 0x3ff0000000000000 0x8000000000000000) = .ok "cf1f0" ∧
-    ident (.npfloat 32 0x3f011000) = .ok "f0x3f1100" ∧ ident (.npfloat 32 0x3f110000) = .ok "f0x3f1100" := by decide
+    (ident (.pyfloat 0)).toOption = some "f0" ∧ (ident (.pyfloat 0x8000000000000000)).toOption = some "f0" ∧
+    (ident (.pycomplex 0x3ff0000000000000 0)).toOption = some "cf1f0" ∧
+    (ident (.pycomplex 0x3ff0000000000000 0x8000000000000000)).toOption = some "cf1f0" ∧
+    (ident (.npfloat 32 0x3f011000)).toOption = some "f0x3f1100" ∧ (ident (.npfloat 32 0x3f110000)).toOption = some "f0x3f1100" := by decide +kernel
 
 /-! ## non-vacuity: a concrete DAG with sharing meets every hypothesis -/
 
